@@ -19,6 +19,8 @@ def handle (j : Json) : Except String Json := do
   | "fusion" => Driver.fusion j
   | "da" => Driver.da j
   | "hoist" => Driver.hoist j
+  | "cursor" => Driver.cursor j
+  | "rankids" => Driver.rankids j
   | "ft_op" => Driver.ftOp j
   | "ft_fiber" => Driver.ftFiber j
   | "ft_project" => Driver.ftProject j
